@@ -1849,6 +1849,11 @@ class LazyStackedTensorDict(TensorDictBase):
 
     valid_keys = keys
 
+    def _update_items_list(self, items: dict) -> None:
+        # the keys that _items_list gives for a lazy stack start with the index of the member
+        for key, val in items.items():
+            self.tensordicts[int(key[0])].set(key[1:], val)
+
     def non_tensor_items(self, include_nested: bool = False):
         """Returns all non-tensor leaves, maybe recursively."""
         items = self.tensordicts[0].non_tensor_items(include_nested=include_nested)
